@@ -643,6 +643,8 @@ func runC08(r *Run) {
 		}
 	}
 	r.Expect("C08.3", 12, "commit guards")
+	r.Rule("C08.9", "the precommit decision is requested only on a Tendermint trigger: every DecidePrecommitRequest send lies behind a prevote majority for one target, precommit power at a Byzantine threshold, the prevote-delay step in the timer handler, or the AwaitingPrecommits classification at round entry")
+	decidePrecommitTriggers(r, "C08.9")
 
 	// ---- C08.4 round advances
 	vs := "$v.RoundView.VoteSummary"
